@@ -107,6 +107,8 @@ RACE_SCENARIOS = [
      _call('tC', [['body_read']], method='POST', form='["tC", 2, 3]', json_nonobj=True, accept='application/json')],
     [_call('tA', [['body_read']], method='POST', form='f=tAf' + 'a' * 40, chunked_ok=True),
      _call('tC', [['see'], ['body_read']], method='POST', form='g=tCg' + 'c' * 33, chunked_ok=True, pad='zz')],
+    # two requests through the same rule with a rex wildcard (one cached filter object per process)
+    [_call('tA', [['see']], route='rex'), _call('tC', [['see']], route='rex', pad='zz')],
 ]
 
 
@@ -179,6 +181,14 @@ def corpus():
              cfg=['domain']),
         dict(kind='batch', race=0, preempt=1),
         dict(kind='batch', race=1, preempt=1),
+        dict(kind='batch', race=2, preempt=1),
+        # every kind of filtered wildcard, and the rule without wildcards whose url_args a route hook / handler extends
+        _arr([_call('tA', [['see']], route='rex'), _call('tC', [['see']], route='re'), _call('tE', [['see']], route='path')],
+             0, [[500, 1], [500, 2]]),
+        _arr([_call('tA', [['see']], route='int'), _call('tC', [['see']], route='float', inject=True)], 1, [[500, 0]]),
+        _arr([_call('tA', [['see'], ['args_write'], ['see']], route='static', inject=True),
+              _call('tC', [['see'], ['see']], route='static'), _call('tE', [['args_write'], ['see']], route='static')],
+             0, [[600, 1], [600, 2]]),
         _arr(RACE_SCENARIOS[0], 0, [[700, 1]]),
         _arr(RACE_SCENARIOS[1], 1, [[300, 0]]),
         _arr([_call('tA', [['see'], ['boom']]), _call('tC', [['see'], ['copy'], ['see']]),
@@ -295,7 +305,10 @@ def _gen_arr(rng):
             script = [['see']] * rng.randrange(0, 2) + [['hdr', 'X-A', tok + 'h']] * rng.randrange(0, 2) + [['body_read']]
             calls.append(_call(tok, script, **kw))
             continue
-        if rng.random() < 0.18:
+        if rng.random() < 0.25:
+            # rules with filtered wildcards (process-wide filter cache) / without wildcards, route hook injecting a kwarg
+            kw.update(sched.gen_wild_kind(rng))
+        elif rng.random() < 0.18:
             # requests the framework answers by itself (404 / 405 / 404-hook / undecodable path), HEAD, domain_map
             kw.update(sched.gen_call_kind(rng, cfg, False))
         elif rng.random() < 0.4:
@@ -315,6 +328,9 @@ def _gen_arr(rng):
         elif kw.get('form') and not kw.get('chunked_ok') and rng.random() < 0.3:
             kw['hook_input'] = True            # a before_request hook replaces wsgi.input / CONTENT_LENGTH of this request
         script = _gen_script(rng, tok, 'form' in kw)
+        if kw.get('route') in ('static', 'rex', 'int') and rng.random() < 0.5:
+            script.insert(rng.randrange(len(script)), ['args_write'])
+            script.insert(rng.randrange(len(script)), ['see'])
         if kw.get('signed'):
             script.insert(rng.randrange(len(script)), ['sess_mutate'])
         calls.append(_call(tok, script, **kw))
@@ -471,7 +487,7 @@ def classify(case, obs):
                 kinds.add(a[0] if a[0] != 'ret' else 'ret:' + a[1])
         if c.get('route'):
             kinds.add(c['route'])
-        for k in ('chunked_ok', 'chunked_bad', 'json_bad', 'json_nonobj', 'too_big', 'domain', 'file_wrapper'):
+        for k in ('chunked_ok', 'chunked_bad', 'json_bad', 'json_nonobj', 'too_big', 'domain', 'file_wrapper', 'inject', 'signed'):
             if c.get(k):
                 kinds.add(k)
     return 'arr/threads=%d/preempt=%d/%s' % (len(case['calls']), len(obs.get('switches') or []),
